@@ -4,7 +4,8 @@
 # demo passes without it.  Prints a one-line JSON verdict.
 set -u
 D=$1; NAME=$2
-WT=/tmp/seedwork/confirm
+WT=${SEED_WT:-/tmp/seedconfirm/repo}
+mkdir -p $(dirname $WT)
 if [ ! -d $WT ]; then git -C /repo worktree add --detach $WT HEAD >/dev/null 2>&1; fi
 cd $WT && git checkout -q -- . && git clean -fdq tests src
 export CARGO_NET_OFFLINE=true
